@@ -4,6 +4,8 @@
 package main
 
 import (
+	"github.com/duo-labs/webauthn/webauthn"
+	"crypto/elliptic"
 	"sync/atomic"
 	"encoding/base64"
 	"crypto/sha512"
@@ -24,6 +26,7 @@ import (
 var vForgeTurn int64
 
 type vSessWorld struct {
+	lost map[string]*vU2FToken
 	w        *vWorld
 	vip      *vFakeVIP
 	okta     *vFakeOkta
@@ -49,7 +52,7 @@ func newSessWorld(mechs []string) *vSessWorld {
 	w.st.Config.Base.EnableLocalTOTP = true
 	w.st.Config.Base.AutomationUsers = append([]string{}, vSessUsers...) // their IP-restricted certificates authenticate
 	w.pw.pw["root"] = "pw-root"
-	g := &vSessWorld{w: w, slots: map[string]string{}, tokens: map[string]*vU2FToken{}, secrets: map[string]string{},
+	g := &vSessWorld{w: w, lost: map[string]*vU2FToken{}, slots: map[string]string{}, tokens: map[string]*vU2FToken{}, secrets: map[string]string{},
 		vipCode: map[string]string{"alice": "111111", "bob": "222222"}, chalFor: map[string]string{}, botpVal: map[string]string{},
 		cliToken: map[string]string{}, certs: map[string][][]*x509.Certificate{}, ipcerts: map[string][][]*x509.Certificate{}, mechs: map[string]bool{}}
 	for _, m := range mechs {
@@ -75,6 +78,13 @@ func newSessWorld(mechs []string) *vSessWorld {
 			tok := newU2FToken(u)
 			g.tokens[u] = tok
 			p.U2fAuthData[1] = &u2fAuthData{Enabled: true, Name: "tok-" + u, Registration: tok.registration(), CreatedAt: time.Unix(1700000000, 0)}
+			// ... and a second hardware token, enrolled through the WebAuthn API and since DISABLED (lost): it is the
+			// user's, it still signs, it must not count
+			lost := newU2FToken("lost-" + u)
+			g.lost[u] = lost
+			p.WebauthnData = map[int64]*webauthAuthData{7: {Enabled: false, Name: "lost-" + u, CreatedAt: time.Unix(1690000000, 0),
+				Credential: webauthn.Credential{ID: lost.handle, AttestationType: "fido-u2f",
+					PublicKey: elliptic.Marshal(elliptic.P256(), lost.key.X, lost.key.Y)}}}
 		}
 		if g.mechs["totp"] {
 			enc, err := w.st.encryptWithPublicKeys([]byte(g.secrets[u]))
@@ -256,6 +266,21 @@ func (g *vSessWorld) step(name string, args map[string]interface{}) (vResp, [][]
 		}
 		// somebody else's token answers: it names ITS key handle, or (every other time) the key handle of the session's
 		// own user - handles are public, only the signature tells the tokens apart
+		if o == "lost" {
+			// the session user's own disabled token signs
+			lt := g.lost[actor]
+			if lt == nil {
+				lt = g.lost["alice"]
+			}
+			if vStr(args, "flavour") == "webauthn" {
+				q.Path, q.RawBody, q.BodyType = webAuthnAuthFinishPath, lt.webauthnAssertion(ch), "application/json"
+			} else {
+				body, _ := json.Marshal(lt.signResponse(ch))
+				q.Path, q.RawBody, q.BodyType = u2fSignResponsePath, body, "application/json"
+			}
+			r = w.Do(q)
+			break
+		}
 		handle := g.tokens[o].handle
 		if at, has := g.tokens[actor]; has && o != actor {
 			if atomic.AddInt64(&vForgeTurn, 1)%2 == 0 {
